@@ -87,6 +87,7 @@ type Intent struct {
 	Gas      uint64    `json:"gas"`
 	FeeLoya  int64     `json:"fee"`                 // -1 = derive from gas at the global minimum price
 	SeqDelta int       `json:"seq_delta,omitempty"` // stale / future sequence tests
+	Follow   bool      `json:"follow,omitempty"`    // second transaction of an account in one block (sent with the next sequence while the first is in flight)
 	Note     string    `json:"note,omitempty"`
 }
 
